@@ -148,7 +148,10 @@ func (c *dctl) fn(id string, buffered bool) getoptions.CommandFn {
 			}
 			return dag.ErrorSkipParents
 		}
-		switch variant % 5 {
+		switch variant % 6 {
+		case 5:
+			// a task's own error may wrap any sentinel of the package: it is still that task's failure
+			return fmt.Errorf("%w after %w", errBoom, dag.ErrorTaskSkipped)
 		case 4:
 			// a task that ran a sub-graph hands back that graph's *Errors value
 			return &dag.Errors{Msg: "sub-graph of " + id, Errors: []error{fmt.Errorf("inner: %w", errBoom), dag.ErrorTaskSkipped}}
@@ -234,10 +237,10 @@ func classifyDagErr(e error) string {
 		return "XDupDep " + strings.TrimPrefix(s, dag.ErrorTaskDependencyDuplicate.Error()+": ")
 	case errors.Is(e, dag.ErrorGraphHasCycle):
 		return "XCycle"
-	case errors.Is(e, dag.ErrorTaskSkipped):
-		return "XSkipped " + taskOf(s)
 	case errors.Is(e, errBoom):
 		return "XTask " + taskOf(s)
+	case errors.Is(e, dag.ErrorTaskSkipped):
+		return "XSkipped " + taskOf(s)
 	case func() bool {
 		var inner *dag.Errors
 		return errors.As(e, &inner) && inner.Msg != "" && strings.HasPrefix(inner.Msg, "sub-graph of ")
